@@ -42,13 +42,15 @@ ASSUMPTIONS = ["float64 CPU, one torch thread", "scf_eps 1e-11 for every evaluat
                "finite differences judged only when the Richardson estimates from steps (h, h/2) and (h/2, h/4) agree to "
                "0.2 x bound (smooth branch: away from the hpp >= 0.1 eV clamp and from the ~1e-7 eV steps the returned "
                "energy has as a function of the orbital exponents)",
-               "parameters whose table value is zero for an element are not perturbed for that element",
+               "parameters whose table value is zero for an element are not perturbed for that element, except in the zero-entry "
+               "cells, where entries that are exactly 0 get an absolute step of 0.1 x (1e-3, 5e-4, 2.5e-4)",
                "the deep-copy bypass replaces only copy.deepcopy((dict, alpha, chi)) by a shallow dict copy inside "
                "seqm.basics / seqm.Molecule, and only after the public path was observed to fail"]
 REQUIRED_MONITORS = ["grad_compared", "grad_compared_density_outputs", "scf_backward_calls", "anderson_calls",
                      "picard_calls", "rho1_backward_calls", "rho2_backward_calls", "degen_symeig_backward_calls",
                      "force_dirs_compared", "hessian_entries_compared", "rho_hook_checked",
-                     "grad_compared_atom_on_hpp_floor", "repeat_grad_compared"]
+                     "grad_compared_atom_on_hpp_floor", "repeat_grad_compared",
+                     "grad_compared_with_zero_valued_entries_fd_nonzero"]
 CASE_TIMEOUT = 900.0
 # cases not started by then are skipped and reported (VERIF_C07_BUDGET overrides, for runs on a loaded machine)
 BUDGET_S = {"quick": float(os.environ.get("VERIF_C07_BUDGET", 200)), "thorough": float(os.environ.get("VERIF_C07_BUDGET", 1700))}
@@ -74,6 +76,7 @@ MIN_SPACING = 0.15    # eV; below this the 5th derivative of an orbital energy m
                       # inaccurate (measured: spacing 0.053 eV -> FD error 3e-6, identical for every backward mode)
 CONVS = [[0, 0.3], [1], [2]]
 MODES = ["leaf", "nonleaf", "callable"]
+ZERO_STEP = 0.1       # direction component (times FD_STEPS) given to parameter entries whose value is exactly 0
 PAIR_NAME = "Kbeta"   # pair-level scaling of the resonance integrals, shape (npairs, 4); not in parameterlist
 
 
@@ -181,6 +184,26 @@ def gen_cases(tier, seed):
         cfgs = [[mode, sb, (mi + sb + i) % 3] for mi, mode in enumerate(MODES) for sb in (0, 1, 2)]
         head.append({"kind": "param", "mol": mol, "method": method, "geom_seed": int(g.integers(0, 2**31)), "sigma": 0.05,
                      "names": ["g_pp", "g_p2", "h_sp", "zeta_p"], "configs": cfgs, "floor_cell": True,
+                     "dir_seed": int(g.integers(0, 2**31))})
+    # --- zero-entry cells: every Gaussian amplitude / exponent / centre and the p-type parameters, INCLUDING the entries
+    # whose value is exactly 0 (elements with fewer Gaussians than the method allows, hydrogen's p parameters, or a
+    # caller who initialises an amplitude at 0): the FD quotient around 0 decides what the gradient there must be
+    gk = lambda m_, idx: ["Gaussian%d_%s" % (i, k) for i in idx for k in "KLM"] if m_ != "MNDO" else []
+    ptype = ["U_pp", "beta_p", "g_pp", "g_p2", "g_sp", "h_sp", "zeta_p"]
+    zc = [("H2O", "AM1", gk("AM1", (1, 2, 3, 4)), []), ("CH2O", "PM6_SP", gk("PM6_SP", (1, 2, 3, 4)), []),
+          ("H2O", "PM3", gk("PM3", (1, 2)), ["Gaussian1_K"]), ("NH3", "AM1", ptype, [])]
+    if tier == "thorough":
+        zc += [("HCN", "AM1", gk("AM1", (1, 2, 3, 4)), ["Gaussian2_K"]), ("CH3F", "PM3", gk("PM3", (1, 2)), ["Gaussian2_K"]),
+               ("H2S", "PM6_SP", gk("PM6_SP", (1, 2, 3, 4)), []), ("H2O", "MNDO", ptype, []), ("CH3Cl", "AM1", gk("AM1", (3, 4)) + ptype[:3], []),
+               ("HCl", "PM6_SP", ptype, [])]
+    for i, (mol, method, nm, zi) in enumerate(zc):
+        if not gen.available(mol, method) or not nm:
+            continue
+        cfgs = [[mode, sb, (mi + sb + i) % 3] for mi, mode in enumerate(MODES) for sb in (0, 1, 2)]
+        if tier == "quick":
+            cfgs = [c for j, c in enumerate(cfgs) if j % 2 == 0 or c[0] == "leaf"]
+        head.append({"kind": "param", "mol": mol, "method": method, "geom_seed": int(g.integers(0, 2**31)), "sigma": 0.05,
+                     "names": nm, "configs": cfgs, "zero_entries": True, "zero_init": zi,
                      "dir_seed": int(g.integers(0, 2**31))})
     # --- repeat cells: one Molecule / Energy object evaluated three times (nudged in place, P0 = previous density)
     rep = [(["H2O"], "AM1", 1, True), (["CH2O", "CH2O"], "PM3", 2, False), (["H2O", "NH3"], "AM1", 1, False)]
@@ -579,8 +602,12 @@ def _run_param(case):
     npairs = nat * (nat - 1) // 2
     if PAIR_NAME in names_all:
         base[PAIR_NAME] = torch.ones(npairs, 4)
-    # learnable here = non-zero for at least one atom
-    names = [n for n in names_all if float(base[n].abs().max()) > 0]
+    zero_mode = bool(case.get("zero_entries"))
+    for n in case.get("zero_init", []):
+        if n in base:
+            base[n] = torch.zeros_like(base[n])   # a caller who initialises this parameter at exactly 0
+    # learnable here = non-zero for at least one atom (zero-entry cells: every name, entries that are exactly 0 included)
+    names = list(names_all) if zero_mode else [n for n in names_all if float(base[n].abs().max()) > 0]
     skipped_zero = [n for n in names_all if n not in names]
     # atoms sitting on the hpp floor (the rho2 solve must be insensitive to their g_pp / g_p2)
     gt = _table(method, Z, ["g_pp", "g_p2"])
@@ -599,7 +626,13 @@ def _run_param(case):
         b = base[n]
         d = torch.tensor(g.normal(size=tuple(b.shape)))
         d = d / d.abs().max()
-        vdir[n] = (b.abs() * d) if n != PAIR_NAME else d       # zero where the table value is zero
+        if n == PAIR_NAME:
+            vdir[n] = d
+        elif zero_mode:
+            # entries whose current value is exactly 0 are perturbed too, with an absolute step
+            vdir[n] = torch.where(b != 0, b.abs() * d, ZERO_STEP * d)
+        else:
+            vdir[n] = b.abs() * d                                # zero where the table value is zero
     cvec = None
 
     # ---------------- finite differences (reference configuration: Pulay, no backward) -----------------
@@ -759,6 +792,10 @@ def _run_param(case):
                     continue
                 C["grad_compared"] += 1
                 ncomp[0] += 1
+                if zero_mode and n != PAIR_NAME and bool(((base[n] == 0) & (vdir[n] != 0)).any()):
+                    C["grad_compared_with_zero_valued_entries"] += 1
+                    if abs(r) > 1e-6:
+                        C["grad_compared_with_zero_valued_entries_fd_nonzero"] += 1
                 if n in ("g_pp", "g_p2") and any(float(vdir[n][i].abs()) > 0 for i in on_floor):
                     C["grad_compared_atom_on_hpp_floor"] += 1
                 if k in DENSITY_OUTPUTS:
@@ -882,6 +919,10 @@ def _run_param(case):
                                         "names_with_same_clause_and_mechanism": sorted({x[1] for x in lst})}})
     for n in names:
         cells.append("%s/name/%s" % (method, n))
+    if zero_mode:
+        for n in names:
+            if n != PAIR_NAME and bool((base[n] == 0).any()):
+                cells.append("%s/zero-valued-entry/%s" % (method, n))
     for i in on_floor:
         if "g_pp" in names or "g_p2" in names:
             cells.append("%s/hpp-floor/%s" % (method, gen.SYM.get(Z[i], Z[i])))
